@@ -12,6 +12,7 @@ from __future__ import annotations
 
 import core
 import designlib
+import searchlib
 
 PROPERTY = "C12"
 LEVEL = "proof"
@@ -31,6 +32,15 @@ def run(ctx: core.Ctx):
         "Model/Report.lean interprets the regenerated statement list; simulate() abstracted to 'records the height'",
     ]
     ctx.lean_prepare()
+    # the real GHE.size on a bare object with a synthetic simulate(): both time-step methods, all three
+    # solve_root outcomes -- after sizing the stored temperatures must be those of the final height
+    # and of the REQUESTED method (the manager only ever sizes with HYBRID)
+    scases = searchlib.size_cases(ctx.rng, 300 if ctx.tier == "quick" else 3000)
+    for c in scases:
+        res = searchlib.real_size(c)
+        ctx.case(("size", repr(c)), True)
+        ctx.count("size-plumbing:" + c[0])
+        searchlib.check_size_predicate(ctx, c, res)
     cfgs, recs, cached = designlib.get_runs(ctx)
     lines, owners = [], []
     for i, (cfg, r) in enumerate(zip(cfgs, recs)):
